@@ -97,13 +97,17 @@ func checks() map[string]*Check {
 		"domain: seed-determined consistent worlds (leader logs over terms 1-3, <= 7 entries, announced commit points respecting leader completeness); requests drawn from the senders' logs (any prev, any prefix of the suffix, leaderCommit <= what that leader announced), duplicates, stale terms, optional compacted prefix via a real InstallSnapshot, optional crash+restart between any two requests",
 	}
 	m["C06"].Runs = append(m["C06"].Runs, RunSpec{Scen: "puppet.ae", Params: "cases=60", Quick: 16, Thorough: 400}, RunSpec{Scen: "puppet.ae", Params: "cases=60,snapthr=2", Quick: 16, Thorough: 400})
+	m["C06"].Runs = append(m["C06"].Runs, RunSpec{Scen: "puppet.iswindow", Params: "cases=4", Quick: 4, Thorough: 100})
 	m["C06"].NT = func(r *Result) bool {
 		if r.Scen == "puppet.ae" {
 			return cnt(r, "c06.commit_bound_checks") > 0
 		}
+		if r.Scen == "puppet.iswindow" {
+			return cnt(r, "iswindow.ae_during_wait") > 0
+		}
 		return cnt(r, "c06.ae_success") > 0 && cnt(r, "c06.conflict_truncations") > 0
 	}
-	m["C06"].Rule += "; puppet runs: each run = 60 request sequences against a fresh real node, non-trivial when the exact commit-bound clause was evaluated"
+	m["C06"].Rule += "; puppet runs: each run = 60 request sequences against a fresh real node, non-trivial when the exact commit-bound clause was evaluated; puppet.iswindow: each run = 4 directed cases in which the final chunk of a snapshot whose label lies inside the follower's stale tail arrives while an earlier entry is being applied (Apply takes 60 ms), the leader retransmits the chunk and continues with AppendEntries right after the label (non-trivial when such a request was answered while the installation was still waiting)"
 	m["C06"].Assume = append(m["C06"].Assume, puppetAssume...)
 	m["C04"].Runs = append(m["C04"].Runs, RunSpec{Scen: "w2.stalereply", Quick: 12, Thorough: 300})
 	m["C01"].Runs = append(m["C01"].Runs, RunSpec{Scen: "w2.stalereply", Quick: 8, Thorough: 200})
@@ -136,7 +140,11 @@ func checks() map[string]*Check {
 		Assume: clusterAssume})
 	m["C11"].Runs = append(m["C11"].Runs, RunSpec{Scen: "w1", Params: "snapshots=1,crash=1", Quick: 48, Thorough: 1200}, RunSpec{Scen: "w2.installcrash", Params: "snapshots=1", Quick: 32, Thorough: 800})
 	m["C11"].Runs = append(m["C11"].Runs, RunSpec{Scen: "puppet.ae", Params: "cases=60,snapthr=2", Quick: 16, Thorough: 400})
+	m["C11"].Runs = append(m["C11"].Runs, RunSpec{Scen: "puppet.iswindow", Params: "cases=4", Quick: 4, Thorough: 100})
 	m["C11"].NT = func(r *Result) bool {
+		if r.Scen == "puppet.iswindow" {
+			return cnt(r, "iswindow.ae_during_wait") > 0 && cnt(r, "log.discard") > 0
+		}
 		if r.Scen == "puppet.ae" {
 			return cnt(r, "log.compact") > 0 && cnt(r, "log.open") > cnt(r, "puppet.cases")
 		}
@@ -145,7 +153,7 @@ func checks() map[string]*Check {
 		}
 		return cnt(r, "log.compact")+cnt(r, "log.discard") > 0
 	}
-	m["C11"].Rule += "; cluster runs (W1, snapshots on): non-trivial when a compaction or a discard happened; puppet.ae with local snapshots (threshold 2): compaction, then conflict truncations of retained entries, then a crash/restart - the reloaded log must equal what the node held (non-trivial when a compaction and a reload happened)"
+	m["C11"].Rule += "; cluster runs (W1, snapshots on): non-trivial when a compaction or a discard happened; puppet.ae with local snapshots (threshold 2): compaction, then conflict truncations of retained entries, then a crash/restart - the reloaded log must equal what the node held (non-trivial when a compaction and a reload happened); puppet.iswindow (see C06): requests overlapping an installation that waits for an application in flight - nothing acknowledged or committed may be lost by the log replacement, the commit index never moves backwards"
 	m["C11"].Assume = append(m["C11"].Assume, clusterAssume...)
 	m["C07"].Runs = append(m["C07"].Runs, RunSpec{Scen: "w1", Params: "snapshots=1,crash=1", Quick: 32, Thorough: 800})
 	m["C01"].Runs = append(m["C01"].Runs, RunSpec{Scen: "w1", Params: "snapshots=1,crash=1", Quick: 32, Thorough: 800})
